@@ -73,6 +73,15 @@ def search(pid, record):
                 w["scenario"] = "frame-one"
                 return w
     if pid in ("C08", "C06") and record.get("file", "").endswith("connection.rs"):
+        d = _run(binary, ["decimal-search", "200000"])
+        for line in d.stdout.splitlines():
+            if line.startswith("{") and json.loads(line).get("found"):
+                w = json.loads(line)
+                w["scenario"] = "decimal-search"
+                return w
+        if d.returncode != 0:
+            return {"found": True, "scenario": "decimal-search", "kind": "process-died", "props": "C08,C06",
+                    "observed": "replayer decimal-search exited with %d: %s" % (d.returncode, d.stderr[-300:]), "expected": "every i64 is written"}
         p = _run(binary, ["conn-search"])
         for line in p.stdout.splitlines():
             if line.startswith("{"):
@@ -123,6 +132,10 @@ def execute(w):
         p = _run(binary, args, timeout=600)
         found = p.returncode != 0 or any(l.startswith("{") and json.loads(l).get("found") for l in p.stdout.splitlines())
         return (not found), p.stdout.strip()[-700:]
+    if w.get("scenario") == "decimal-search":
+        p = _run(binary, ["decimal-search", "200000"])
+        found = p.returncode != 0 or any(l.startswith("{") and json.loads(l).get("found") for l in p.stdout.splitlines())
+        return (not found), p.stdout.strip()[-500:]
     if w.get("scenario") == "server-search":
         p = _run(binary, ["server-search", str(w.get("seed", 0))], timeout=300)
         found = p.returncode != 0 or any(l.startswith("{") and json.loads(l).get("found") for l in p.stdout.splitlines())
